@@ -6,11 +6,6 @@ PID = 'C09'
 SHORT = 'aes'
 
 ENV = '''
-#[derive(Debug, Clone, Copy, PartialEq, Eq, Structural)]
-pub struct StatusCode { pub bits: u32 }
-impl StatusCode {
-    pub const BadUnexpectedError: StatusCode = StatusCode { bits: 0x8001_0000 };
-}
 // openssl::symm::Cipher: only its block size is used here (16 for AES-CBC)
 pub struct Cipher { pub bs: usize }
 impl Cipher {
@@ -35,6 +30,7 @@ def build(manifest):
     f = splice_contract(f, SPEC['validate_aes_args'][1], 'r')
     a = Asm()
     a.add('use vstd::prelude::*;\nverus! {\nglobal size_of usize == 8;\n', 'prelude', 'env')
+    a.add(status_code_struct(manifest), 'status codes', 'env')      # every status code of the real file (D14)
     a.add(ENV, 'env', 'env')
     a.add('impl AesKey {')
     a.add(f, 'validate_aes_args', 'fn')
